@@ -38,7 +38,7 @@ def run(ctx):
     # ---------------------------------------------------------------- R1
     r = ctx.rule("C03-R1", "SIBLING", "every index CommandCollection.add records is consulted by get and by "
                  "__contains__ (a name, short name or alias is found by 'in' iff found by get); nobody outside the "
-                 "class touches the indices", reference=5)
+                 "class touches the indices", reference=6)
     add, get, cont = coll.methods.get("add"), coll.methods.get("get"), coll.methods.get("__contains__")
     ctx.require(add and get and cont, "CommandCollection.add/get/__contains__ missing")
     written = set()
@@ -355,7 +355,7 @@ def run(ctx):
 
     # ---------------------------------------------------------------- R12
     r = ctx.rule("C03-R12", "TABLE", "the marker getters of a command config answer with the marker: a field that only ever holds a boolean (initialised "
-                 "with True/False, set from a boolean parameter) is returned as it is, not compared with None (`default(False)` must un-mark)", reference=4)
+                 "with True/False, set from a boolean parameter) is returned as it is, not compared with None (`default(False)` must un-mark)", reference=8)
     for ci in [c for c in p.classes.values() if c.module.name.startswith("clikit.api.config")]:
         init_ = ci.methods.get("__init__")
         if init_ is None:
@@ -388,7 +388,7 @@ def run(ctx):
     from .c06 import base_recursion_rule
 
     r = ctx.rule("C03-R13", "SIBLING", "the expected path of command names of a deeply nested command is complete: a format asks its base format for the base's "
-                 "full listing (the base fall-through is recursive - no include_base=False on the call to the base)", reference=6)
+                 "full listing (the base fall-through is recursive - no include_base=False on the call to the base)", reference=30)
     base_recursion_rule(ctx, r)
 
     # ---------------------------------------------------------------- R14
